@@ -135,6 +135,13 @@ class FilterStore(Store[T]):
         """Get an item out of the store that satisfies ``filter``"""
         return FilterStoreGet(self, filter)
 
+    def _trigger_get(self, put_event: StorePut):
+        # A request whose filter matches nothing must not block later requests.
+        # Serve every pending request that finds an item, in request order.
+        for get_event in list(self.get_queue):
+            if self._do_get(get_event):
+                self.get_queue.remove(get_event)
+
     def _do_get(self, event: FilterStoreGet):
         event_filter = event.filter
         try:
